@@ -628,7 +628,7 @@ func randWorld(name string, seed int64, s *world.Signers) (*WorldFile, error) {
 		for k := rng.Intn(3); k > 0; k-- {
 			cs = append(cs, chunks[rng.Intn(len(chunks))])
 		}
-		files = append(files, b.file(fnames[rng.Intn(len(fnames))]+fmt.Sprint(i%2)[:i%2], 3*i+rng.Intn(3), cs...)) // distinct dates: distinct blobs
+		files = append(files, b.file(fnames[rng.Intn(len(fnames))]+fmt.Sprint(i % 2)[:i%2], 3*i+rng.Intn(3), cs...)) // distinct dates: distinct blobs
 	}
 	dnames := []string{"top", "sub", "mid", "deep", "hello", "other"}
 	nd := 2 + rng.Intn(4)
